@@ -385,6 +385,7 @@ func (p *Parser) InteractiveSeq(r io.Reader) iter.Seq2[[]*Stmt, error] {
 			w.accumulated = append(w.accumulated, stmts)
 			if err != nil {
 				if !yield(w.accumulated, err) {
+					w.stopped = true
 					break
 				}
 				// If the caller wishes, they can continue in the presence of parse errors.
@@ -396,6 +397,7 @@ func (p *Parser) InteractiveSeq(r io.Reader) iter.Seq2[[]*Stmt, error] {
 			// back to run the statements and print "$ ".
 			if p.tok == _Newl {
 				if !yield(w.accumulated, nil) {
+					w.stopped = true
 					break
 				}
 				w.accumulated = w.accumulated[:0]
@@ -404,6 +406,11 @@ func (p *Parser) InteractiveSeq(r io.Reader) iter.Seq2[[]*Stmt, error] {
 				// another "$ " print thinking that nothing was parsed.
 				w.lastLine = w.p.line + 1
 			}
+		}
+		// The input may end without a final newline; hand over the statements
+		// of that last line too, like an interactive shell runs them at EOF.
+		if !w.stopped && p.err == nil && len(w.accumulated) > 0 {
+			yield(w.accumulated, nil)
 		}
 	}
 }
